@@ -83,6 +83,12 @@ def cavdp_inputs(rng, tier):
         a, _ = gens.int_record(rng, n, amp=amp, style=rng.choice(['uniform', 'plateau', 'sparse', 'walk', 'hat']))
         a = a / 8.0
         out.append((a, dt))
+    # rounding-edge lengths: record lengths n for which a float-step grid np.arange(0, n*dt, dt) does not have n points
+    # (the series has the record's length whatever a time base rebuilt from n and dt would have)
+    edge = [(n, dt) for dt in (0.01, 0.005, 0.02) for n in range(int(2 / dt) + 1, int(3 / dt) + 1) if len(np.arange(0, n * dt, dt)) != n]
+    for n, dt in rng.sample(edge, min(len(edge), 6 if tier == 'quick' else 60)):
+        a, _ = gens.int_record(rng, n, amp=rng.choice([2, 3, 10]), style=rng.choice(['uniform', 'walk', 'hat']))
+        out.append((a / 8.0, dt))
     return out
 
 
